@@ -20,13 +20,20 @@ package agreement
 // released through the loopback by an account contain at most one value per (round, period, step),
 // proposal-votes included. A panic inside submitTop is a violation.
 //
-// FINDING on the unchanged tree (genuine, reproduced with the real Service by the plain unit test in
-// /verif/findings/C02-restart-overwrites-crash-state/): after a restart the replay of a restored
-// attest action overwrites the crash database with an EMPTY state; a second crash then starts a fresh
-// player that votes again in a slot it already voted in (key C02:equivocation-after-restart:
-// crash-state-overwritten-by-restart). Every other equivocation has a different key.
+// FINDING (genuine; reproduced with the real Service by the plain unit test in
+// /verif/findings/C02-restart-overwrites-crash-state/; fixed in /repo by 78a4db2146): after a restart
+// the replay of a restored attest action overwrote the crash database with an EMPTY state, because
+// Service.mainLoop did not initialise persistRouter/persistStatus/persistActions on its restore path; a
+// second crash then started a fresh player that voted again in a slot it had already voted in (key
+// C02:equivocation-after-restart:crash-state-overwritten-by-restart; every other equivocation has the
+// key ...:other). Whether the restore path initialises those fields is not assumed by the shell but
+// PROBED at the start of every run on the real Service.mainLoop (eagrProbeRestorePath: the real
+// mainLoop is run on an in-memory crash database holding a snapshot with a pending attest, and
+// Service.persistStatus / persistActions are inspected); the shell then mirrors what the real code
+// does, so reverting the fix makes this check fail again.
 //
-// Mutants (bin/mut, quick tier, run with the finding listed as known):
+// Mutants (bin/mut, quick tier):
+//   DETECTED  service.go: the three assignments of fix 78a4db2146 removed (the finding itself).
 //   DETECTED  actions.go pseudonodeAction.persistent() returns false for attest (the shell uses the real
 //             persistent(): the snapshot is then the pre-vote/empty state): honest accounts re-vote after ONE
 //             crash; shows as the contract panic "more than value reached a threshold" in voteTracker.
